@@ -173,7 +173,10 @@ def element(env, kind: str, i: int, idtype: str = 'i', strlen: int = 2):
         doc['method'] = 'boom'
     info = {'valid': True, 'b': b}
     if c == 'call':
-        if idtype == 'i':
+        if isinstance(idtype, (list, tuple)):           # ['const', value]: a concrete id (e.g. 1 next to "1")
+            doc['id'] = idtype[1]
+            info['idtag'] = 's' if isinstance(idtype[1], str) else 'i'
+        elif idtype == 'i':
             doc['id'] = env.int(f'id{i}')
             info['idtag'] = 'i'
         else:
